@@ -7,9 +7,13 @@ import (
 )
 
 var nums = []string{"0", "1", "2", "9", "10", "11", "01", "00", "123456789012345678901234567890", "99999999999999999999",
-	"100000000000000000000", "18446744073709551615", "18446744073709551616", "9223372036854775807", "9223372036854775808", ""}
+	"100000000000000000000", "18446744073709551615", "18446744073709551616", "9223372036854775807", "9223372036854775808", "",
+	// decimal digits outside ASCII (Arabic-Indic, fullwidth, Devanagari), alone, behind ASCII digits and hiding a leading zero
+	"\u0662", "\uff13", "2\u0663", "3\u0969", "\u06600"}
 var ids = []string{"0", "1", "10", "2", "01", "a", "A", "-", "--", "a1", "1a", "alpha", "beta", "rc1", "0a", "00", "", "x-y", "é", "_",
-	"pre", "0.20200101000000-abcdef123456", "99999999999999999999", "100000000000000000000"}
+	"pre", "0.20200101000000-abcdef123456", "99999999999999999999", "100000000000000000000",
+	// letters whose UTF-8 bytes are all Latin-1 letters when read one byte at a time, and a lone Latin-1 byte
+	"b\u00eata", "\u00b5s", "\xe9", "\u043a\u0435"}
 var builds = []string{"incompatible", "meta", "a.b", "", "01", "x..y", "incompatible.1", "Incompatible", "dirty", "meta-pre", "linux-amd64", "-", "a-.-b", "0-0"}
 
 // BuildMeta returns valid build metadata (without the '+'): one to three dot-separated
@@ -100,6 +104,11 @@ func ValidVersion(r *rand.Rand, allowShort bool) string {
 	clean := func(s string) string {
 		if s == "" || (len(s) > 1 && s[0] == '0') {
 			return "0"
+		}
+		for i := 0; i < len(s); i++ {
+			if s[i] < '0' || s[i] > '9' {
+				return "7" // the pool also holds digits outside ASCII
+			}
 		}
 		return s
 	}
